@@ -231,11 +231,12 @@ func c07ObsNode(n generic.Node) []string {
 	if n.IsUnKnown() {
 		return []string{fi(1), fi(0), fx(nil)}
 	}
-	var raw []byte
-	if ok, _ := noPanic(func() { raw = n.Raw() }); !ok {
+	// a node with a negative length (finding 705) panics in Raw() or as soon as its bytes are used
+	var hexRaw string
+	if ok, _ := noPanic(func() { hexRaw = fx(n.Raw()) }); !ok {
 		return []string{fi(3), fi(int(n.Type())), fx(nil)}
 	}
-	return []string{fi(0), fi(int(n.Type())), fx(raw)}
+	return []string{fi(0), fi(int(n.Type())), hexRaw}
 }
 
 var c07Panic = []string{"n3", "n0", "x"}
@@ -431,18 +432,41 @@ func genC07(r *rng, n int) {
 				}
 				return c07ObsNode(cur.Node)
 			})
-			// 5: GetMany on the parent with the last step only; 9: plus up to two sibling steps taken from the other paths
-			getMany := func(siblings bool) func(p c07Path) []string {
-				return func(p c07Path) []string {
-					l := len(p.Steps)
-					parent := root()
+			// the parent of the last step as GetByPath locates it, with its observation (status, type, raw, Len)
+			parentOf := func(p c07Path) (parent generic.Value, pobs []string) {
+				l := len(p.Steps)
+				ok, _ := noPanic(func() {
+					parent = root()
 					if l > 1 {
 						parent = root().GetByPath(p.goPath(false)[:l-1]...)
 					}
-					if parent.IsError() {
-						return []string{fi(2), fi(-1), fx(nil)}
+				})
+				if !ok {
+					return parent, []string{fi(3), fi(0), fx(nil), fi(0)}
+				}
+				pobs = c07ObsNode(parent.Node)
+				size := 0
+				if !parent.IsError() {
+					if n, err := parent.Len(); err == nil {
+						size = n
+					}
+				}
+				return parent, append(pobs, fi(size))
+			}
+			stepFields := func(st c07Step) []string {
+				return c07Path{Steps: []c07Step{st}}.fields(false, nil, vr)[1:]
+			}
+			// 5: GetMany on the parent with the last step only; 9: plus up to two sibling steps taken from the other paths
+			// query layout: path, obs, parent obs (4), #requests, requests, position of the queried one
+			getMany := func(siblings bool) func(p c07Path) []string {
+				return func(p c07Path) []string {
+					l := len(p.Steps)
+					parent, pobs := parentOf(p)
+					if pobs[0] != "n0" {
+						return append(append([]string{fi(2), fi(-1), fx(nil)}, pobs...), fi(0), fi(0))
 					}
 					pn := []generic.PathNode{{Path: p.Steps[l-1].goPath(false)}}
+					reqs := []c07Step{p.Steps[l-1]}
 					for _, q := range all {
 						if !siblings || len(pn) >= 3 {
 							break
@@ -456,42 +480,60 @@ func genC07(r *rng, n int) {
 							}
 							if same {
 								pn = append(pn, generic.PathNode{Path: q.Steps[l-1].goPath(false)})
+								reqs = append(reqs, q.Steps[l-1])
 							}
 						}
 					}
 					// the queried path goes to a random position
 					at := int(uint(len(bs)+l) % uint(len(pn)))
 					pn[0], pn[at] = pn[at], pn[0]
-					if err := parent.GetMany(pn, opts); err != nil {
-						return []string{fi(c07ErrStatus(err)), fi(-2), fx(nil)}
+					reqs[0], reqs[at] = reqs[at], reqs[0]
+					tail := append([]string{}, pobs...)
+					tail = append(tail, fi(len(reqs)))
+					for _, st := range reqs {
+						tail = append(tail, stepFields(st)...)
 					}
-					return c07ObsNode(pn[at].Node)
+					tail = append(tail, fi(at))
+					var obs []string
+					if ok, _ := noPanic(func() {
+						if err := parent.GetMany(pn, opts); err != nil {
+							obs = []string{fi(c07ErrStatus(err)), fi(-2), fx(nil)}
+						} else {
+							obs = c07ObsNode(pn[at].Node)
+						}
+					}); !ok {
+						obs = c07Panic
+					}
+					return append(append([]string{}, obs...), tail...)
 				}
 			}
 			emit702(5, false, getMany(false))
 			emit702(9, false, getMany(true))
-			// 6: Children(recurse=false) of the parent
+			// 6: PathNode.Load(recurse=false) on the parent node; same layout with no requests
 			emit702(6, false, func(p c07Path) []string {
 				l := len(p.Steps)
-				parent := root()
-				if l > 1 {
-					parent = root().GetByPath(p.goPath(false)[:l-1]...)
+				parent, pobs := parentOf(p)
+				tail := append(append([]string{}, pobs...), fi(0), fi(0))
+				if pobs[0] != "n0" {
+					return append([]string{fi(2), fi(-1), fx(nil)}, tail...)
 				}
-				if parent.IsError() {
-					return []string{fi(2), fi(-1), fx(nil)}
+				var obs []string
+				if ok, _ := noPanic(func() {
+					tree := generic.PathNode{Node: parent.Node}
+					if err := tree.Load(false, opts, parent.Desc); err != nil {
+						obs = []string{fi(c07ErrStatus(err)), fi(-2), fx(nil)}
+						return
+					}
+					ch, ok := c07FindChild(tree.Next, p.Steps[l-1])
+					if !ok {
+						obs = []string{fi(1), fi(0), fx(nil)}
+						return
+					}
+					obs = c07ObsNode(ch.Node)
+				}); !ok {
+					obs = c07Panic
 				}
-				var next []generic.PathNode
-				next = make([]generic.PathNode, 0, 4)
-				tree := generic.PathNode{Node: parent.Node}
-				if err := tree.Load(false, opts, parent.Desc); err != nil {
-					return []string{fi(c07ErrStatus(err)), fi(-2), fx(nil)}
-				}
-				next = tree.Next
-				ch, ok := c07FindChild(next, p.Steps[l-1])
-				if !ok {
-					return []string{fi(1), fi(0), fx(nil)}
-				}
-				return c07ObsNode(ch.Node)
+				return append(append([]string{}, obs...), tail...)
 			})
 			// 7: PathNode.Load(recurse=true) on the root, then walk
 			var tree generic.PathNode
@@ -500,6 +542,9 @@ func genC07(r *rng, n int) {
 				tree = generic.PathNode{Node: root().Node}
 				loadErr = tree.Load(true, opts, c.Dyn)
 			})
+			if c07Debug && loadErr != nil {
+				fmt.Fprintf(os.Stderr, "load(recurse) error: %v\n", loadErr)
+			}
 			emit702(7, false, func(p c07Path) []string {
 				if !loadOK {
 					return c07Panic
@@ -549,6 +594,10 @@ func genC07(r *rng, n int) {
 				if !ok || v.IsError() {
 					continue // reported by 702
 				}
+				nobs := c07ObsNode(v.Node)
+				if nobs[0] != "n0" {
+					continue
+				}
 				add := func(cast int, f func() (int, []string)) {
 					var st int
 					var vals []string
@@ -559,6 +608,7 @@ func genC07(r *rng, n int) {
 						vals = []string{fi(0)}
 					}
 					fields = append(fields, p.fields(false, nil, vr)...)
+					fields = append(fields, nobs[1], nobs[2]) // type and raw bytes of the node the cast is applied to
 					fields = append(fields, fi(cast), fi(st))
 					fields = append(fields, vals...)
 					nq++
